@@ -295,8 +295,9 @@ def jobs_C15(rng):
     from rv.props import c15
 
     th = []
-    files = [(rng.choice([8000, 22050, 44100]), rng.choice([1, 2]), rng.choice([4000, 12001]), rng.getrandbits(16)) for _ in range(3)]
-    for i in range(16):
+    # all readers on ONE file (the clips of one recording spread over the workers), many short reads
+    files = [(rng.choice([8000, 22050, 44100]), rng.choice([1, 2]), rng.choice([4000, 12001]), rng.getrandbits(16))]
+    for i in range(40):
         sr, ch, n, seed = rng.choice(files)
         a = rng.uniform(0, n / sr * 0.8); b = a + rng.uniform(0, n / sr * 0.5)
 
@@ -315,12 +316,15 @@ def jobs_C15(rng):
 JOBS = {k[5:]: v for k, v in list(globals().items()) if k.startswith("jobs_")}
 
 
+ROUNDS = {"C15": 8}
+
+
 def run(ctx, prop, seed):
     rng = random.Random(seed)
     name, thunks, norm = JOBS[prop](rng)
     spec = {"kind": "concurrent", "seed": seed}
     ctx.case(("concurrent", name), spec)
-    threads.concurrent_agree(ctx, name, thunks, norm, spec)
+    threads.concurrent_agree(ctx, name, thunks, norm, spec, rounds=ROUNDS.get(prop, 3))
 
 
 def run_some(ctx, prop, quick=4, thorough=20):
